@@ -93,6 +93,9 @@ type Renderer struct {
 	// Rand supplies the random choices of Noisy mode (nil: no noise).  It
 	// returns a number in [0, n).
 	Rand func(n int) int
+	// BareLength lets "length" be written without parentheses (only safe where nothing
+	// parenthesised follows; used by generators whose oracle does not depend on the tree).
+	BareLength bool
 	// StrSpell optionally chooses an alternative spelling for a string literal's content.
 	StrSpell func(s string) (string, bool)
 
@@ -327,10 +330,11 @@ func (r *Renderer) bare(n *Node, c ectx) string {
 		return s + n.Op
 	case Call:
 		if n.Name == "length" && len(n.A) == 0 {
-			if r.rnd(2) == 1 {
-				return "length()"
+			// a bare "length" followed by "(" would be read as a call with an argument
+			if r.BareLength && r.rnd(2) == 0 {
+				return "length"
 			}
-			return "length"
+			return "length()"
 		}
 		parts := make([]string, len(n.A))
 		for i, a := range n.A {
